@@ -3,7 +3,11 @@
        create_read_events_are_inputs  every read call of a run targets abs_path cwd f for an input f
    CC2 create_reads_below_index_dir   every read path lies strictly below the directory of the index file
    CC3 par1_create_write_targets / par1_create_read_targets / par1_create_inputs_untouched
-   CC4 par1_create_order_matters      PAR1 Create's index file depends on the order of the input list *)
+   CC4 par1_create_order_matters      PAR1 Create's index file depends on the order of the input list
+   CC5 create_writes_miss_inputs      PAR2 Create never writes over an input: it refuses (before any call) an input whose
+       create_input_paths_untouched   resolved path is the index file or a name the recovery-file listing would return
+       create_ok_inputs_not_outputs   (create.go isParityFilePath = Model.Par2.is_parity_path); so every input keeps its
+                                      content whatever Create returns, and after Ok no input is an output *)
 From Coq Require Import Lia ZifyN ZifyNat ZifyBool String Ascii.
 From Gopar Require Import Model.Base Model.GF16 Model.Matrix Model.RS16 Model.CRC Model.GoPath Model.FS Model.Par2
      Proofs.GoPathFacts Proofs.Par2Facts Proofs.Par2Faults Proofs.Par2CreatePaths.
@@ -382,6 +386,64 @@ Proof.
   - apply within_canon; assumption.
 Qed.
 
+(** * CC5, lexical part: the refusal test of create.go (is_parity_path) covers every path Create writes *)
+
+(* a canonical path is its own Clean, hence its own Abs *)
+Lemma clean_canon a : canon a -> clean a = a.
+Proof.
+  intros (cs & Hcs & ->). rewrite clean_nonempty by discriminate.
+  change (is_abs (canon_of cs)) with true.
+  rewrite clean_stack_canon_of by exact Hcs. cbn [render]. rewrite rev_involutive. reflexivity.
+Qed.
+
+Lemma abs_path_idem cwd f : is_abs (abs_path cwd f) = true -> abs_path cwd (abs_path cwd f) = abs_path cwd f.
+Proof.
+  intros H. rewrite (abs_path_of_abs cwd _ H). apply clean_canon. apply canon_abs_path. exact H.
+Qed.
+
+(* the index file and every volume name: <index minus ".par2"><suffix> *)
+Lemma is_parity_path_output absPar s : ext absPar = EXT_PAR2 -> is_sfx s ->
+  is_parity_path absPar (strip_ext absPar ++ s) = true.
+Proof.
+  intros He [->|(i & c & ->)]; unfold is_parity_path.
+  - destruct (ext_par2_form absPar He) as (b & ->). rewrite strip_ext_app_par2, str_eqb_refl. reflexivity.
+  - apply orb_true_iff. right. cbv zeta. rewrite He. unfold vol_sfx.
+    set (b := strip_ext absPar).
+    apply andb_true_iff. split; [apply andb_true_iff; split; [apply andb_true_iff; split|]|].
+    + apply Nat.leb_le. rewrite !app_length. cbn [length]. lia.
+    + unfold starts_with.
+      replace (b ++ [46; 118; 111; 108] ++ dec2 (N.of_nat i) ++ [43] ++ dec2 (N.of_nat c) ++ EXT_PAR2)
+        with ((b ++ [DOT]) ++ [118; 111; 108] ++ dec2 (N.of_nat i) ++ [43] ++ dec2 (N.of_nat c) ++ EXT_PAR2)
+        by (rewrite <- app_assoc; reflexivity).
+      rewrite firstn_length_app. apply str_eqb_refl.
+    + unfold ends_with.
+      replace (b ++ [46; 118; 111; 108] ++ dec2 (N.of_nat i) ++ [43] ++ dec2 (N.of_nat c) ++ EXT_PAR2)
+        with ((b ++ [46; 118; 111; 108] ++ dec2 (N.of_nat i) ++ [43] ++ dec2 (N.of_nat c)) ++ EXT_PAR2)
+        by (rewrite <- !app_assoc; reflexivity).
+      rewrite app_length.
+      match goal with |- context [skipn (?x + ?y - ?y)] => replace (x + y - y)%nat with x by lia end.
+      rewrite skipn_length_app. apply str_eqb_refl.
+    + apply no_slash_vol_path.
+Qed.
+
+(* what the test accepts is not written: when no resolved input is a parity path of the resolved index path, every
+   output path resolves to a path different from every resolved input *)
+Lemma accepted_inputs_not_outputs cwd par files :
+  ext par = EXT_PAR2 ->
+  existsb (is_parity_path (abs_path cwd par)) (map (abs_path cwd) files) = false ->
+  forall f pth, In f files -> is_output par pth -> abs_path cwd pth <> abs_path cwd f.
+Proof.
+  intros He Hex f pth Hf Ho Heq.
+  apply is_output_sfx in Ho. destruct Ho as (s & Hs & ->).
+  rewrite (abs_path_strip_ext cwd par s He (is_sfx_good s Hs)) in Heq.
+  assert (Hea : ext (abs_path cwd par) = EXT_PAR2).
+  { rewrite (ext_abs_path cwd par (ext_par2_plain_last par He)). exact He. }
+  pose proof (is_parity_path_output (abs_path cwd par) s Hea Hs) as Hp. rewrite Heq in Hp.
+  assert (Ht : existsb (is_parity_path (abs_path cwd par)) (map (abs_path cwd) files) = true).
+  { apply existsb_exists. exists (abs_path cwd f). split; [apply in_map; exact Hf|exact Hp]. }
+  rewrite Ht in Hex. discriminate Hex.
+Qed.
+
 (** * the calls of a run *)
 Section CreateContain.
   Variable md5 : bytes -> bytes.
@@ -393,7 +455,9 @@ Section CreateContain.
     intros H. unfold rel_refused in H. unfold par2_create.
     destruct (negb (str_eqb (ext par) EXT_PAR2)); [reflexivity|].
     destruct files as [|f0 files0]; [reflexivity|].
-    cbv zeta. rewrite H. reflexivity.
+    cbv zeta.
+    destruct (existsb (is_parity_path (abs_path cwd par)) (map (abs_path cwd) (f0 :: files0))); [reflexivity|].
+    rewrite H. reflexivity.
   Qed.
 
   (* a read call of a run targets the model's read path of an input whose relative name was accepted *)
@@ -471,7 +535,130 @@ Section CreateContain.
     - apply is_abs_abs_path. exact Hc.
     - intros f _. apply is_abs_abs_path. exact Hc.
   Qed.
+
+  (** * CC5: Create never writes over one of its inputs *)
+
+  Lemma create_bad_ext_refused cwd par files p st :
+    str_eqb (ext par) EXT_PAR2 = false -> par2_create md5 cwd par files p st = (Err EUsage, st).
+  Proof. intros H. unfold par2_create. rewrite H. reflexivity. Qed.
+
+  (* the refusal of create.go: an input that is the index file or would be listed as a recovery file of the set *)
+  Lemma create_parity_input_refused cwd par files p st :
+    existsb (is_parity_path (abs_path cwd par)) (map (abs_path cwd) files) = true ->
+    par2_create md5 cwd par files p st = (Err EUsage, st).
+  Proof.
+    intros H. unfold par2_create.
+    destruct (negb (str_eqb (ext par) EXT_PAR2)); [reflexivity|].
+    destruct files as [|f0 files0]; [reflexivity|].
+    cbv zeta. rewrite H. reflexivity.
+  Qed.
+
+  (* a run that is not refused outright - it made a call, or returned something else than the refusal - passed both tests *)
+  Lemma create_not_refused_inv cwd par files p st :
+    par2_create md5 cwd par files p st <> (Err EUsage, st) ->
+    ext par = EXT_PAR2 /\ existsb (is_parity_path (abs_path cwd par)) (map (abs_path cwd) files) = false.
+  Proof.
+    intros H. split.
+    - destruct (str_eqb (ext par) EXT_PAR2) eqn:E; [apply str_eqb_eq; exact E|].
+      destruct (H (create_bad_ext_refused cwd par files p st E)).
+    - destruct (existsb (is_parity_path (abs_path cwd par)) (map (abs_path cwd) files)) eqn:E; [|reflexivity].
+      destruct (H (create_parity_input_refused cwd par files p st E)).
+  Qed.
+
+  (* NO WRITE CALL TARGETS AN INPUT, even up to the resolution of relative spellings by the operating system: the
+     resolved target of every write call of a run differs from the resolved path of every input *)
+  Theorem create_writes_miss_inputs : forall cwd parPath files p fs sched pth d ok f,
+    In (EvWrite pth d ok) (io_trace (snd (par2_create md5 cwd parPath files p (io_init fs sched)))) ->
+    In f files -> abs_path cwd pth <> abs_path cwd f.
+  Proof.
+    intros cwd par files p fs sched pth d ok f Hin Hf.
+    destruct (create_not_refused_inv cwd par files p (io_init fs sched)) as (He & Hex).
+    { intros E. rewrite E in Hin. destruct Hin. }
+    apply (accepted_inputs_not_outputs cwd par files He Hex f pth Hf).
+    apply (create_write_targets md5 cwd par files p fs sched pth d ok Hin).
+  Qed.
+
+  (* IF CREATE RETURNS Ok THEN NO INPUT IS AN OUTPUT: no name Create writes to (the index file, any volume name)
+     resolves to the resolved path of an input - for every starting state and fault schedule *)
+  Theorem create_ok_inputs_not_outputs : forall cwd parPath files p st f pth,
+    fst (par2_create md5 cwd parPath files p st) = Ok tt ->
+    In f files -> is_output parPath pth -> abs_path cwd pth <> abs_path cwd f.
+  Proof.
+    intros cwd par files p st f pth Hok Hf Ho.
+    destruct (create_not_refused_inv cwd par files p st) as (He & Hex).
+    { intros E. rewrite E in Hok. discriminate Hok. }
+    exact (accepted_inputs_not_outputs cwd par files He Hex f pth Hf Ho).
+  Qed.
+
+  (* the same on the paths themselves, for the absolute current directory of a real process: the path of an input, as
+     Create reads it, is not a path Create writes to *)
+  Corollary create_ok_input_paths_not_outputs : forall cwd parPath files p st f,
+    is_abs cwd = true ->
+    fst (par2_create md5 cwd parPath files p st) = Ok tt ->
+    In f files -> ~ is_output parPath (abs_path cwd f).
+  Proof.
+    intros cwd par files p st f Hc Hok Hf Ho.
+    apply (create_ok_inputs_not_outputs cwd par files p st f (abs_path cwd f) Hok Hf Ho).
+    apply abs_path_idem. apply is_abs_abs_path. exact Hc.
+  Qed.
+
+  (* EVERY INPUT KEEPS ITS CONTENT, WHATEVER CREATE RETURNS, for every fault schedule: the file map after the run
+     equals the file map before it at the resolved path of every input (the path Create reads it at,
+     create_read_events_are_inputs_cwd) - with no side condition on the path *)
+  Theorem create_input_paths_untouched : forall cwd parPath files p fs sched f,
+    is_abs cwd = true -> In f files ->
+    fs_lookup (io_fs (snd (par2_create md5 cwd parPath files p (io_init fs sched)))) (abs_path cwd f) =
+    fs_lookup fs (abs_path cwd f).
+  Proof.
+    intros cwd par files p fs sched f Hc Hf. apply create_touches_only_written.
+    intros Hin. apply written_paths_in in Hin. destruct Hin as (d & ok & Hin).
+    apply (create_writes_miss_inputs cwd par files p fs sched (abs_path cwd f) d ok f Hin Hf).
+    apply abs_path_idem. apply is_abs_abs_path. exact Hc.
+  Qed.
 End CreateContain.
+
+(* THE REPRODUCTION.  `par c -c 2 arc.par2 a.dat b.dat`, then `par c -c 2 arc.par2 a.dat arc.par2 arc.vol00+01.par2`
+   (what `par c arc.par2 *` does on a second run): the second run is refused before any call and every file keeps its
+   content; so is a run with an input that a later Verify would list as a recovery file of the set; names that only
+   look similar (another base name, another extension, a file in a sub-directory arc.d/) stay acceptable inputs *)
+Example create_own_outputs_refused :
+  let cwd := bs "/w" in let par := bs "/w/arc.par2" in
+  let p := {| cp_slice := 4; cp_parity := 2 |} in
+  let fs0 := [(bs "/w/a.dat", [1; 2; 3; 4; 5]); (bs "/w/b.dat", [6; 7; 8; 9])] in
+  let r1 := par2_create toy_md5 cwd par [bs "a.dat"; bs "b.dat"] p (io_init fs0 []) in
+  let fs1 := io_fs (snd r1) ++ [(bs "/w/arc.notes.par2", [1]); (bs "/w/arc.d/x.par2", [2]); (bs "/w/arcx.vol00+01.par2", [3])] in
+  let r2 := par2_create toy_md5 cwd (bs "arc.par2") [bs "a.dat"; bs "arc.par2"; bs "arc.vol00+01.par2"] p (io_init fs1 []) in
+  let r3 := par2_create toy_md5 cwd par [bs "a.dat"; bs "arc.notes.par2"] p (io_init fs1 []) in
+  let r4 := par2_create toy_md5 cwd par [bs "a.dat"; bs "arc.d/x.par2"; bs "arcx.vol00+01.par2"] p (io_init fs1 []) in
+  fst r1 = Ok tt /\
+  map fst (io_fs (snd r1)) = [bs "/w/a.dat"; bs "/w/b.dat"; bs "/w/arc.par2"; bs "/w/arc.vol00+01.par2"; bs "/w/arc.vol01+01.par2"] /\
+  fst r2 = Err EUsage /\ io_trace (snd r2) = [] /\ io_fs (snd r2) = fs1 /\
+  fst r3 = Err EUsage /\ io_trace (snd r3) = [] /\
+  fst r4 = Ok tt /\
+  written_paths (io_trace (snd r4)) = [bs "/w/arc.par2"; bs "/w/arc.vol00+01.par2"; bs "/w/arc.vol01+01.par2"] /\
+  map (is_parity_path par) [bs "/w/arc.par2"; bs "/w/arc.vol00+01.par2"; bs "/w/arc.notes.par2"; bs "/w/arc..par2";
+                            bs "/w/arc.d/x.par2"; bs "/w/arcx.vol00+01.par2"; bs "/w/arc.par2.bak"; bs "/w/arc.par";
+                            bs "/v/arc.vol00+01.par2"; bs "/w/a.dat"]
+    = [true; true; true; true; false; false; false; false; false; false].
+Proof. vm_compute. repeat split; reflexivity. Qed.
+
+Definition opt_differ (x y : option bytes) : bool :=
+  match x, y with Some a, Some b => negb (bytes_eqb a b) | None, None => false | _, _ => true end.
+
+(* COUNTEREXAMPLE (why create_input_paths_untouched asks for an absolute current directory): the test of create.go
+   is made on filepath.Abs of the arguments; from a relative "current directory" (which no process has) a relative
+   input resolves to a relative path that the test does not recognise, while the path read - Join of the absolute
+   index directory and the relative name - is the first volume, which is then overwritten *)
+Example create_input_paths_untouched_relative_refuted :
+  let cwd := bs "x" in let par := bs "/x/o.par2" in let f := bs "o.vol00+01.par2" in
+  let fs := [(bs "/x/o.vol00+01.par2", [1; 2; 3; 4])] in
+  let r := par2_create toy_md5 cwd par [f] {| cp_slice := 4; cp_parity := 2 |} (io_init fs []) in
+  abs_path cwd f = bs "x/o.vol00+01.par2" /\ is_parity_path (abs_path cwd par) (abs_path cwd f) = false /\
+  fst r = Ok tt /\
+  hd_error (io_trace (snd r)) = Some (EvRead (bs "/x/o.vol00+01.par2") true) /\
+  In (bs "/x/o.vol00+01.par2") (written_paths (io_trace (snd r))) /\
+  opt_differ (fs_lookup (io_fs (snd r)) (bs "/x/o.vol00+01.par2")) (fs_lookup fs (bs "/x/o.vol00+01.par2")) = true.
+Proof. vm_compute. repeat split; try reflexivity. right. left. reflexivity. Qed.
 
 (** * CC3: PAR1 Create *)
 
@@ -726,7 +913,111 @@ Example par1_create_run :
   Par1.volume_path (bs "out/o.par") 2 = bs "out/o.p02".
 Proof. vm_compute. repeat split; reflexivity. Qed.
 
+(** * CC6: the create command, then verify - the premise "no input is an output" of CLICompose.cli_create2_then_verify2_zero
+       is now a consequence of the command's success *)
+From Gopar Require Model.CLI Proofs.Par2Clean Proofs.CLIFacts Proofs.CLICompose.
+
+Section CreateThenVerify.
+  Variable md5 : bytes -> bytes.
+
+  Lemma create_rel_refused cwd par files p st :
+    existsb rel_refused (map (rel_path (dir (abs_path cwd par))) (map (abs_path cwd) files)) = true ->
+    par2_create md5 cwd par files p st = (Err EUsage, st).
+  Proof.
+    intros H. unfold rel_refused in H. unfold par2_create.
+    destruct (negb (str_eqb (ext par) EXT_PAR2)); [reflexivity|].
+    destruct files as [|f0 files0]; [reflexivity|].
+    cbv zeta.
+    destruct (existsb (is_parity_path (abs_path cwd par)) (map (abs_path cwd) (f0 :: files0))); [reflexivity|].
+    rewrite H. reflexivity.
+  Qed.
+
+  (* what the refusal test leaves: the resolved input is not the index path and does not match <base>.*.par2 *)
+  Lemma not_parity_path_inv par a : ext par = EXT_PAR2 -> is_parity_path par a = false ->
+    a <> par /\ Par2Clean.vol_pattern (strip_ext par) a = false.
+  Proof.
+    intros He H. unfold is_parity_path in H. apply orb_false_iff in H. destruct H as [H1 H2].
+    split; [intros ->; rewrite str_eqb_refl in H1; discriminate H1|].
+    cbv zeta in H2. rewrite He in H2. exact H2.
+  Qed.
+
+  (* a successful run: every input was read at its resolved path, which is neither the index path nor a path of the
+     recovery-file pattern (absolute current directory, as every process has) *)
+  Theorem create_ok_inputs_outside_pattern cwd par files p st st' :
+    is_abs cwd = true ->
+    par2_create md5 cwd par files p st = (Ok tt, st') ->
+    forall f, In f files ->
+      let a := abs_path cwd f in
+      let basedir := dir (abs_path cwd par) in
+      join2 basedir (rel_path basedir a) = a /\
+      a <> abs_path cwd par /\ Par2Clean.vol_pattern (strip_ext (abs_path cwd par)) a = false.
+  Proof.
+    intros Hc Hok f Hf a basedir.
+    destruct (create_not_refused_inv md5 cwd par files p st) as (He & Hex).
+    { rewrite Hok. discriminate. }
+    assert (Hacc : rel_refused (rel_path basedir a) = false).
+    { destruct (existsb rel_refused (map (rel_path basedir) (map (abs_path cwd) files))) eqn:E.
+      - rewrite (create_rel_refused cwd par files p st E) in Hok. discriminate Hok.
+      - destruct (rel_refused (rel_path basedir a)) eqn:Er; [|reflexivity].
+        assert (Ht : existsb rel_refused (map (rel_path basedir) (map (abs_path cwd) files)) = true).
+        { apply existsb_exists. exists (rel_path basedir a). split; [apply in_map, in_map, Hf|exact Er]. }
+        rewrite Ht in E. discriminate E. }
+    split.
+    - apply join_rel_canon; [apply canon_dir, is_abs_abs_path, Hc|apply canon_abs_path, is_abs_abs_path, Hc|exact Hacc].
+    - apply not_parity_path_inv.
+      + rewrite (ext_abs_path cwd par (ext_par2_plain_last par He)). exact He.
+      + destruct (is_parity_path (abs_path cwd par) a) eqn:Ep; [|reflexivity].
+        assert (Ht : existsb (is_parity_path (abs_path cwd par)) (map (abs_path cwd) files) = true).
+        { apply existsb_exists. exists a. split; [apply in_map, Hf|exact Ep]. }
+        rewrite Ht in Hex. discriminate Hex.
+  Qed.
+
+  (* CLICompose.cli_create2_then_verify2_zero for an index path that filepath.Abs leaves alone (absolute, clean) and
+     the absolute current directory of a process: WITHOUT the premise that no input is the index file or matches
+     <base>.*.par2 - the create command would not have exited 0 *)
+  Theorem cli_create2_then_verify2_zero_checked : (forall x, length (md5 x) = 16%nat) ->
+    forall cwd args par files p fs st',
+    is_abs cwd = true -> abs_path cwd par = par ->
+    CLI.cli_run md5 cwd args (io_init fs []) = (0, st') -> CLICompose.cli_is_create2 args par files p ->
+    let sz := CLICompose.create_slice p in
+    let basedir := dir par in
+    let rels := map (rel_path basedir) (map (abs_path cwd) files) in
+    forall datas st1,
+    Par2.io_reads (map (join2 basedir) rels) (io_init fs []) = (Ok datas, st1) ->
+    N.of_nat sz <= MAXSLICE ->
+    Forall (fun nm : bytes => Par2Clean.no_nul nm /\ N.of_nat (length nm) < 2 ^ 32) rels ->
+    Forall (fun d : bytes => wf_bytes d /\ N.of_nat (length d) <= MAXINT) datas ->
+    NoDup (map fi_id (map (fun nd : bytes * bytes => data_file_info md5 sz (fst nd) (snd nd)) (combine rels datas))) ->
+    (forall q, In q (map fst fs) -> Par2Clean.vol_pattern (Par2.strip_ext par) q = false) ->
+    forall cwd2 vargs, CLIFacts.cli_is_verify2 vargs par ->
+      fst (CLI.cli_run md5 cwd2 vargs (io_init (io_fs st') [])) = 0.
+  Proof.
+    intros Hmd5 cwd args par files p fs st' Hc Hpar H Hcr sz basedir rels datas st1 ER Hmax Hn Hd Hnd Hfresh cwd2 vargs Hv.
+    pose proof (CLICompose.cli_create2_zero_then_verify_zero md5 _ _ _ _ _ _ _ H Hcr) as Hok.
+    assert (Hb : dir (abs_path cwd par) = basedir) by (unfold basedir; rewrite Hpar; reflexivity).
+    apply (CLICompose.cli_create2_then_verify2_zero md5 Hmd5 cwd args par files p fs st' H Hcr datas st1);
+      try assumption; try (rewrite Hb; assumption).
+    intros rel Hrel. rewrite Hb in Hrel.
+    apply in_map_iff in Hrel. destruct Hrel as (a & <- & Ha).
+    apply in_map_iff in Ha. destruct Ha as (f & <- & Hf).
+    destruct (create_ok_inputs_outside_pattern cwd par files p _ _ Hc Hok f Hf) as (Hj & Hne & Hpat).
+    cbv zeta in Hj, Hne, Hpat. rewrite Hpar in Hj, Hne, Hpat. fold basedir in Hj.
+    unfold file_path. fold basedir. rewrite Hj. split; assumption.
+  Qed.
+End CreateThenVerify.
+
 Print Assumptions join_rel_canon.
+Print Assumptions create_ok_inputs_outside_pattern.
+Print Assumptions cli_create2_then_verify2_zero_checked.
+Print Assumptions is_parity_path_output.
+Print Assumptions accepted_inputs_not_outputs.
+Print Assumptions create_parity_input_refused.
+Print Assumptions create_writes_miss_inputs.
+Print Assumptions create_ok_inputs_not_outputs.
+Print Assumptions create_ok_input_paths_not_outputs.
+Print Assumptions create_input_paths_untouched.
+Print Assumptions create_own_outputs_refused.
+Print Assumptions create_input_paths_untouched_relative_refuted.
 Print Assumptions create_reads_resolved_inputs.
 Print Assumptions create_reads_resolved_inputs_cwd.
 Print Assumptions create_read_events_are_inputs.
